@@ -452,7 +452,108 @@ func (r *eofTogetherReader) Read(p []byte) (int, error) {
 	return n, nil
 }
 
+// c08big: a file whose middle block has a payload of 70-400 KiB; only the interesting cut positions are
+// enumerated (every structural boundary +-3, every multiple of 4 KiB inside the big payload +-1, random ones)
+func c08big(c *core.Ctx, i int) {
+	r := c.Rand(i, 3)
+	sch, _ := refavro.ParseSchema([]byte(`{"type":"record","name":"big","fields":[{"name":"b","type":"bytes"},{"name":"n","type":"long"}]}`))
+	t := gen.StructOf(gen.Fld("B", "b", false, gen.Leaf(gen.KBytes)), gen.Fld("N", "n", false, gen.Leaf(gen.KInt64)))
+	mk := func(n int) any {
+		b := make([]byte, n)
+		for k := range b {
+			b[k] = byte(r.Uint32())
+		}
+		return &refavro.Record{Fields: []any{b, int64(n)}}
+	}
+	bigN := 70000 + r.IntN(330000)
+	blocks := [][]any{{mk(100), mk(3000)}, {mk(bigN / 2), mk(bigN / 2)}, {mk(500)}}
+	if r.IntN(2) == 0 {
+		blocks = [][]any{{mk(bigN)}, {mk(100)}}
+	}
+	codec := []string{"null", "deflate", "snappy"}[r.IntN(3)]
+	file, err := refavro.WriteContainer([]byte(sch.JSON()), sch, blocks, nil, refavro.WriteOpts{Codec: codec})
+	if err != nil {
+		c.Violate("harness", err.Error(), nil)
+		return
+	}
+	cont, err := refavro.ReadContainer(file)
+	if err != nil {
+		c.Violate("harness", err.Error(), nil)
+		return
+	}
+	cf := &contFile{file: file, cont: cont, t: t, schema: sch, origin: "reference-writer", desc: fmt.Sprintf("reference-writer big blocks codec=%q blocks=%d bytes=%d", codec, len(cont.Blocks), len(file))}
+	want, err := cf.expected(cont)
+	if err != nil {
+		c.Violate("harness", err.Error(), nil)
+		return
+	}
+	cuts := map[int]bool{0: true, len(file): true}
+	add := func(p int) {
+		for d := -3; d <= 3; d++ {
+			if p+d >= 0 && p+d <= len(file) {
+				cuts[p+d] = true
+			}
+		}
+	}
+	add(cont.HeaderEnd)
+	for _, b := range cont.Blocks {
+		add(b.Start)
+		add(b.PayloadOff)
+		add(b.PayloadEnd)
+		add(b.End)
+		for p := b.PayloadOff + 4096; p < b.PayloadEnd; p += 4096 {
+			cuts[p-1], cuts[p], cuts[p+1] = true, true, true
+		}
+	}
+	for k := 0; k < 40; k++ {
+		cuts[r.IntN(len(file)+1)] = true
+	}
+	rt := t.RT()
+	for cut := range cuts {
+		nrec := 0
+		okEnd := cut == cont.HeaderEnd
+		for _, b := range cont.Blocks {
+			if b.PayloadEnd <= cut {
+				nrec += int(b.Count)
+			}
+			if b.End == cut {
+				okEnd = true
+			}
+		}
+		prefix := file[:cut]
+		for shape := 0; shape < 2; shape++ {
+			var rd avro.Reader = bytes.NewReader(prefix)
+			if shape == 1 {
+				rd = bufio.NewReaderSize(&eofTogetherReader{b: prefix}, 4096)
+			}
+			o := readCollect(rd, rt, -1, nil)
+			c.Eval(1)
+			what := fmt.Sprintf("cut at %d of %d (reader shape %d)", cut, len(file), shape*2)
+			switch {
+			case o.pan != nil:
+				c.Violate("panic", fmt.Sprintf("%s: panic %v [%s]", what, o.pan, cf.desc), nil)
+			case len(o.vals) != nrec || cmpVals(t, want[:nrec], o.vals) != "":
+				c.Violate("prefix-records", fmt.Sprintf("%s: %d records delivered, the blocks whose payload is complete hold %d [%s]", what, len(o.vals), nrec, cf.desc), nil)
+			case okEnd && o.err != nil:
+				c.Violate("boundary-error", fmt.Sprintf("%s ends exactly at the header/a block end but ReadFile reports %v [%s]", what, o.err, cf.desc), nil)
+			case !okEnd && o.err == nil:
+				c.Violate("truncation-accepted", fmt.Sprintf("%s is inside the header or a block, yet ReadFile reports success [%s]", what, cf.desc), nil)
+			default:
+				continue
+			}
+			return
+		}
+	}
+	c.Count("big-block-files", 1)
+	c.Count("big-block-cuts", int64(len(cuts)))
+	c.Shape(cf.desc)
+}
+
 func runC08(c *core.Ctx, i int) {
+	if i%16 == 15 {
+		c08big(c, i)
+		return
+	}
 	maxRecs := 10
 	if i%8 == 6 {
 		maxRecs = 100 // 64..163 records: two-byte count varints
@@ -578,7 +679,6 @@ func init() {
 			}
 			return u
 		},
-		Exhaustive: func(a *core.Agg) bool { return true },
 	})
 	core.Register(&core.Prop{
 		ID:        "C08",
@@ -598,6 +698,9 @@ func init() {
 			if a.C("max.classes-per-file") < 8 {
 				u = append(u, fmt.Sprintf("max outcome classes per file %d < 8", a.C("max.classes-per-file")))
 			}
+			if a.C("big-block-files") < 4 {
+				u = append(u, fmt.Sprintf("big-block-files=%d < 4", a.C("big-block-files")))
+			}
 			for _, k := range []string{"files.codec.null", "files.codec.deflate", "files.codec.snappy", "files.reference-writer", "files.library-encoder", "multiblock-files", "blocks-with-two-byte-count"} {
 				if a.C(k) < 4 {
 					u = append(u, fmt.Sprintf("%s=%d < 4", k, a.C(k)))
@@ -605,6 +708,5 @@ func init() {
 			}
 			return u
 		},
-		Exhaustive: func(a *core.Agg) bool { return true },
 	})
 }
